@@ -14,11 +14,18 @@ Theorem C04_rotate_unit : forall dir rot : vec3 R, unitv dir -> unitv rot ->
 Proof. exact rotate_unit. Qed.
 Print Assumptions C04_rotate_unit.
 
+(** repaired code (commit 176dbfb): for every unit rot, off-axis or axis-aligned *)
 Theorem C04_rotate_preserves_polar : forall dir rot : vec3 R, unitv dir -> unitv rot ->
-  (5 / 1000 <= sintheta_of rot \/ 0 <= vy rot) ->
   dot (rotate (min_acc (T:=R)) dir rot) rot = vz dir.
 Proof. exact rotate_preserves_polar. Qed.
 Print Assumptions C04_rotate_preserves_polar.
+
+(** pinned code: only under the branch hypothesis *)
+Theorem C04_rotate_old_preserves_polar : forall dir rot : vec3 R, unitv dir -> unitv rot ->
+  (5 / 1000 <= sintheta_of rot \/ 0 <= vy rot) ->
+  dot (rotate_old (min_acc (T:=R)) dir rot) rot = vz dir.
+Proof. exact rotate_old_preserves_polar. Qed.
+Print Assumptions C04_rotate_old_preserves_polar.
 
 (** pinned code ([rotate_old], the copy of ArrayUtils.hh::rotate as first modelled):
     in the branch 0 < sin(theta) < 0.005 the sign of rot[Y] is dropped *)
@@ -43,7 +50,7 @@ Proof. exact kn_energy_conserved. Qed.
 Print Assumptions C04_kn_energy_conserved.
 
 Theorem C04_kn_momentum_conserved : forall (me : R) (p : kn_params R) a s r a' s' sec,
-  kn_ok me p -> canon s -> rot_branch_ok (kn_dir p) ->
+  kn_ok me p -> canon s ->
   kn_sample p a s = Some ((r, a'), s') -> i_secs r = [sec] -> s_pid sec = PElectron ->
   let pe := sqrt (s_energy sec * (s_energy sec + 2 * me)) in
   let E := kn_energy p in
@@ -100,7 +107,7 @@ Proof. exact ep_energy_conserved. Qed.
 Print Assumptions C04_eplusgg_energy_conserved.
 
 Theorem C04_eplusgg_outputs_valid : forall fixed (p : ep_params R) a s r a' s',
-  ep_ok p -> 0 < ep_energy p -> canon s -> (fixed = false \/ rot_branch_ok (ep_dir p)) ->
+  ep_ok p -> 0 < ep_energy p -> canon s ->
   ep_sample fixed p a s = Some ((r, a'), s') -> i_action r <> Failed ->
   exists g0 g1, i_secs r = [g0; g1] /\ s_pid g0 = PGamma /\ s_pid g1 = PGamma /\
     0 < s_energy g0 /\ 0 < s_energy g1 /\ unitv (s_dir g0) /\ unitv (s_dir g1).
@@ -115,7 +122,7 @@ Proof. exact ep_cost_range. Qed.
 Print Assumptions C04_eplusgg_cost_in_range.
 
 Theorem C04_eplusgg_momentum_conserved : forall (p : ep_params R) a s r a' s' g0 g1,
-  ep_ok p -> 0 < ep_energy p -> canon s -> rot_branch_ok (ep_dir p) ->
+  ep_ok p -> 0 < ep_energy p -> canon s ->
   ep_sample true p a s = Some ((r, a'), s') -> i_secs r = [g0; g1] ->
   let pin := sqrt (ep_energy p * (ep_energy p + 2 * ep_me p)) in
   vx (ep_dir p) * pin = vx (s_dir g0) * s_energy g0 + vx (s_dir g1) * s_energy g1 /\
@@ -149,7 +156,7 @@ Print Assumptions C04_ioni_energy_conserved.
 
 Theorem C04_ioni_momentum_conserved : forall (e_inc m_inc t_e m_e : R) dir s r s' sec,
   0 < m_inc -> 0 < m_e -> 0 < e_inc -> 0 < t_e < tmax_R m_inc e_inc m_e -> t_e < e_inc ->
-  unitv dir -> rot_branch_ok dir ->
+  unitv dir ->
   ioni_final e_inc dir (sqrt (e_inc * e_inc + 2 * m_inc * e_inc)) m_inc t_e m_e s = Some (r, s') ->
   i_secs r = [sec] ->
   let p_inc := sqrt (e_inc * e_inc + 2 * m_inc * e_inc) in
